@@ -29,28 +29,41 @@ def check_C30(ctx):
     json.dump({"shapes": shapes}, open(sf, "w"))
     rf = os.path.join(ctx.work, "results.ndjson")
     engines = "interp,vm" if ctx.quick else "interp,vm,vmopt"
-    ctx.run([binary, "run", sf, rf, engines], timeout=3400)
-    rows = [r for r in read_ndjson(rf) if not r.get("summary")]
-    # deadline misses: re-run alone before believing them
-    final = []
-    for r in rows:
-        if r["outcome"] == "timeout":
-            try:
-                p = subprocess.run(["timeout", "300", binary, "one", json.dumps(r["shape"]), r["engine"]],
-                                   stdout=subprocess.PIPE, stderr=subprocess.PIPE, text=True)
-                if p.returncode == 0:
-                    r = json.loads(p.stdout.strip().splitlines()[-1])
-                elif p.returncode == 124:
-                    r["outcome"] = "timeout-confirmed"
-                else:
-                    raise Infra("re-run of a shape failed: " + p.stderr[-500:])
-            except Infra:
-                raise
-        final.append(r)
-    rows = final
+    # the batch process may die if a shape overflows the host stack (that is itself a violation of the
+    # property): tolerate it and run the shapes it did not finish one by one
+    p = subprocess.run([binary, "run", sf, rf, engines], stdout=subprocess.PIPE, stderr=subprocess.PIPE, text=True,
+                       env=dict(os.environ, VERIF_SEED=str(ctx.seed), VERIF_TIER=ctx.tier))
+    rows = [r for r in read_ndjson(rf) if not r.get("summary")] if os.path.exists(rf) else []
+    done = set((json.dumps(r["shape"], sort_keys=True), r["engine"]) for r in rows if r["outcome"] != "timeout")
+    todo = []
+    for sh in shapes:
+        for e in engines.split(","):
+            if (json.dumps({k: sh[k] for k in ("loop", "body", "limit", "expect")}, sort_keys=True), e) not in done:
+                todo.append((sh, e))
+    if p.returncode != 0 and len(todo) > 60:
+        raise Infra("limits driver died early (rc=%d) leaving %d shapes: %s" % (p.returncode, len(todo), p.stderr[-800:]))
+    rows = [r for r in rows if r["outcome"] != "timeout"]
+    for sh, e in todo:
+        q = subprocess.run(["timeout", "300", binary, "one", json.dumps(sh), e], stdout=subprocess.PIPE, stderr=subprocess.PIPE, text=True)
+        if q.returncode == 0:
+            rows.append(json.loads(q.stdout.strip().splitlines()[-1]))
+        elif q.returncode == 124:
+            rows.append({"shape": sh, "engine": e, "outcome": "timeout-confirmed", "class": "", "err": "", "wall": 300, "maxdepth": 0,
+                         "depthlimit": 0, "trace": [], "src": ""})
+        elif "fatal error" in q.stderr or "stack overflow" in q.stderr or "goroutine stack exceeds" in q.stderr or "panic:" in q.stderr:
+            first = [l for l in q.stderr.splitlines() if "fatal error" in l or "stack exceeds" in l or l.startswith("panic:")][:2]
+            rows.append({"shape": sh, "engine": e, "outcome": "host-crash", "class": "crash", "err": " | ".join(first), "wall": 0,
+                         "maxdepth": 0, "depthlimit": 0, "trace": [], "src": ""})
+        else:
+            raise Infra("re-run of a shape failed (rc=%d): %s" % (q.returncode, q.stderr[-500:]))
     events, execs = [], []
     for i, r in enumerate(rows):
         sh = r["shape"]
+        if r["outcome"] == "host-crash":
+            ctx.report(sig_of(r, "host-crash"),
+                       "shape %s on %s crashed the host process (%s) although finite computation and call-depth limits are configured"
+                       % (json.dumps(sh), r["engine"], r["err"]), {"shape": sh, "engine": r["engine"]})
+            continue
         if r["outcome"] == "timeout-confirmed":
             ctx.report(sig_of(r, "no-termination"),
                        "shape %s on %s did not terminate within 300 s alone on the machine although a finite computation limit is configured"
